@@ -117,7 +117,7 @@ func parseMetaEnvs(envs, istioVersion, podIP string) *structpb.Struct {
 		existips := ips.GetStringValue()
 		if existips == "" {
 			existips = podIP
-		} else if !strings.Contains(existips, podIP) {
+		} else if !containsIP(existips, podIP) {
 			existips = existips + "," + podIP
 		}
 		pbmeta.Fields[IstioMetaInstanceIPs] = &structpb.Value{
@@ -125,6 +125,16 @@ func parseMetaEnvs(envs, istioVersion, podIP string) *structpb.Struct {
 		}
 	}
 	return pbmeta
+}
+
+// containsIP reports whether ip is one of the comma-separated addresses in ips.
+func containsIP(ips, ip string) bool {
+	for _, e := range strings.Split(ips, ",") {
+		if e == ip {
+			return true
+		}
+	}
+	return false
 }
 
 func nodeId(podIP, podName, namespace, nodeDomain string) string {
